@@ -517,6 +517,7 @@ def r4_limits_reestablished(repo=None):
         r.ok("%s:%s %s" % (m.rel, store[0].line, q), "every normal path after storing the record reaches self._expire(rec.group)")
     base_methods = set(m.methods(BASE))
     n_over = 0
+    undecided = []
     for mx in MIXINS:
         for name, f in m.methods(mx).items():
             if name not in base_methods:
@@ -540,17 +541,23 @@ def r4_limits_reestablished(repo=None):
                 def expires_head(callname, depth=0):
                     if callname == "self." + ro.expire_head:
                         return True
-                    if callname.startswith("self.") and depth < 2:
-                        h = m.methods(mx).get(callname[5:])
+                    if callname.startswith("self.") and depth < 3:
+                        # a method of the mixin itself or of the base handler (the hook may have been split into smaller methods)
+                        h = m.methods(mx).get(callname[5:]) or m.methods(BASE).get(callname[5:])
                         if h is not None:
                             return any(isinstance(c2, ast.Call) and expires_head(pyfront.call_name(c2) or "", depth + 1) for c2 in ast.walk(h))
                     return False
                 if len(loops) == 1 and not ifs and any(isinstance(c, ast.Call) and expires_head(pyfront.call_name(c) or "")
                                                        for c in ast.walk(loops[0])):
                     r.ok("%s:%s %s" % (m.rel, loops[0].lineno, oq), "`while <limit exceeded>: expire oldest` (repeats until the limit holds)")
+                elif loops:
+                    # not decided - unless the rule has positive findings of its own (they outrank, and must not be lost)
+                    undecided.append("%s: a while loop exists but was not recognised as `while <limit exceeded>: expire the oldest`" % oq)
                 else:
                     r.violation(m.rel, oq, "limit enforcement is not a while loop", "one expiration may not be enough to get back under "
                                 "the limit", line=f.lineno)
+    if undecided and not r.findings:
+        raise AnalysisError(undecided[0])
     if n_over < 9:
         raise AnalysisError("only %d mixin overrides found, 10 confirmed" % n_over)
     fac = m.fn("DigitalRFRingbufferHandler")
@@ -786,8 +793,44 @@ def r6_scan_agrees_with_event_filter(repo=None):
     return r
 
 
+def r7_moved_file_counted_once(repo=None):
+    """'deletes only what it must': a rename of a tracked file inside the watched tree changes no count, size or time span, so it
+    must not expire anything.  The addition of a name re-establishes the limits (R4) - if the new name is added while the old one
+    is still tracked, the file is counted twice at that moment and, with a limit exactly full, the oldest file of the group is
+    deleted although no limit is exceeded before or after the move.  Ordering on the CFG of on_moved: no call that adds the
+    destination name is reachable from the entry without passing a call that removes the source name."""
+    r = Rule("C16.R7", "a moved file is un-tracked under its old name before it is tracked under the new one (never counted twice)")
+    ro = rbroles.roles(repo)
+    m = ro.m
+    q = BASE + ".on_moved"
+    if q not in m.functions:
+        raise AnalysisError("%s not found" % q)
+    g = m.cfg(q)
+
+    def calls_with(n, names, path_attr):
+        return [c for c in pyfront.node_calls(n) if (pyfront.call_name(c) or "") in names and any(
+            isinstance(x, ast.Attribute) and x.attr == path_attr for a in list(c.args) + [k.value for k in c.keywords] for x in ast.walk(a))]
+    adders = ("self.add_files", "self." + ro.add_record, "self._add_files")
+    removers = ("self.remove_files", "self._remove_files", "self." + getattr(ro, "remove_record", "_remove_record"))
+    adds = [n for n in g.nodes if calls_with(n, adders, "dest_path")]
+    rems = [n for n in g.nodes if calls_with(n, removers, "src_path")]
+    if not adds or not rems:
+        raise AnalysisError("%s: the calls that track event.dest_path (%d) / un-track event.src_path (%d) were not recognised" % (q, len(adds), len(rems)))
+    early = [a for a in adds if a.id in g.reach([g.entry.id], avoid=[x.id for x in rems], skip_labels=("exc",))]
+    for a in adds:
+        site = "%s:%s %s `%s`" % (m.rel, a.line, q, a.label[:50])
+        if a in early:
+            r.violation(m.rel, q, "%s before the source name is removed" % a.label[:60], "the moved file is tracked under both names while the "
+                        "limits are re-established by the addition: with a count or size limit exactly full the oldest file of the "
+                        "group is deleted although no limit is exceeded before or after the move", line=a.line)
+        else:
+            r.ok(site, "reached only after `%s`" % rems[0].label[:50])
+    r.guard(1)
+    return r
+
+
 def rules(repo=None):
-    return [lambda: r6_scan_agrees_with_event_filter(repo), lambda: r1_only_tracked_paths_deleted(repo), lambda: r2_accounting_pairs_with_mutation(repo),
+    return [lambda: r7_moved_file_counted_once(repo), lambda: r6_scan_agrees_with_event_filter(repo), lambda: r1_only_tracked_paths_deleted(repo), lambda: r2_accounting_pairs_with_mutation(repo),
             lambda: r3_oldest_first_and_owners(repo), lambda: r4_limits_reestablished(repo), lambda: r5_growth_rechecks_the_limit(repo)]
 
 
@@ -804,7 +847,8 @@ EXPLANATION = (
     'hook, in the hook itself or in every caller. R6: every ilsdrf listing with a time window whose result reaches a '
     'method of the event handler (flat views: a listing made in a helper is judged where it is used) is used only as the '
     'iterable of a comprehension filtered by <handler>._match_path(path, True). Does NOT decide that the deque insertion '
-    'keeps time order.')
+    'keeps time order. R7: on the CFG of on_moved no call that tracks event.dest_path is reachable before the call that '
+    'un-tracks event.src_path (a moved file is never counted twice while the limits are re-established).')
 TECHNIQUE = ('Python ast; path-sensitive product analysis of bookkeeping mutations vs returned flag; owner tables for queue/record mutators; MRO/`super()` delegation')
 ASSUMPTIONS = ["watchdog delivers events only for paths under the scheduled watch", "deque.remove raises when the element is absent"]
 FILES = [RB, "python/digital_rf/list_drf.py", "python/digital_rf/watchdog_drf.py"]
